@@ -651,6 +651,7 @@ func genC11(c *Ctx) {
 	// while the other cases are generated; collected at the end
 	connCases := c11ConnCases(c)
 	defer c11ConnCollect(c, connCases)
+	defer c11R8Start(c)() // round 8: slow consumer, pinger vs. senders (c11_r8.go)
 
 	// --- marshal: frame bytes for chosen nonce / payload
 	for i := 0; i < c.Scale(40, 400); i++ {
